@@ -86,6 +86,18 @@ CLAIMED['C18'] = dict(
           "dynamically created Transport subclasses (alone and inside sequences); processors are modelled by the mark they leave."),
     ref="DESIGN.md section 4 C18")
 
+CLAIMED['C14'] = dict(
+    technique="Coq proof by structural induction over the units between two passes (decision model) + rotation lemmas over R; exhaustive differential run for short sequences",
+    text=("Theorems: with automatic rotation on, for any units between two consecutive passes containing at most one rotator, "
+          "explicit rotators plus the entry rotation of the second pass make exactly one turn (by the rotator if present, else by the "
+          "pass); explicit settings False/0/True/angle are applied exactly; the global switch off disables entry rotation; the rule "
+          "table regenerated from rotator/hookimpls.py is total and yields only 0/45/90/180; rotation preserves distances, area, "
+          "perimeter and composes additively. The decision model is compared with roll_pass.rotation for every arrangement of up to "
+          "4 units (9120) and random longer ones; solved sequences count the turns actually made."),
+    note=("Trusted: Coq kernel; Reals axioms for the geometry theorems; decision model coq/lib/Rotation.v tied by the correspondence run; "
+          "translator T-A for the rule table; shapely.affinity.rotate sampled against the closed formula; nested sequences out of scope."),
+    ref="DESIGN.md section 4 C14")
+
 NOT_YET = {}
 
 
